@@ -640,11 +640,41 @@ def dedup_key_rule(ctx):
     return obs
 
 
+def slot_key_rule(ctx):
+    """the slot-value scopes of a child are collected under one key and looked up under the same key"""
+    ob = ctx.ob
+    tc = ctx.tc
+
+    def norm(e):
+        e = sir.strip_ref(e)
+        while e.get("k") == "mcall" and e["m"] in ("to_string", "clone", "to_owned", "as_str", "into", "as_ref") and not e["args"]:
+            e = sir.strip_ref(e["recv"])
+        return sir.expr_str(e).replace(" ", "")
+    stored, looked = [], []
+    where = "proc_gen/tag.rs"
+    for f in tc.fns:
+        if not f.body or f.module[:2] != ["proc_gen", "tag"]:
+            continue
+        for n in sir.walk(f.body):
+            if n.get("k") == "mcall" and n["args"] and "var_slot" in sir.expr_str(n["recv"]):
+                if n["m"] == "push" and "attr." in sir.expr_str(n["args"][0]):
+                    stored.append(norm(n["args"][0]))
+                    where = ctx.where(f)
+                elif n["m"] in ("get", "contains_key", "get_mut") and "attr." in sir.expr_str(n["args"][0]):
+                    looked.append(norm(n["args"][0]))
+    if not stored or not looked:
+        return [ob("C05.mirror/gen/slot-key", None, where, "the collection / lookup of slot-value names is not in a form this rule reads")]
+    ok = set(stored) == set(looked) and len(set(stored)) == 1
+    return [ob("C05.mirror/gen/slot-key", ok, where, "slot-value scopes are collected under `%s` and looked up under `%s`" % (sorted(set(stored)), sorted(set(looked))),
+               witness=None if ok else "<div slot:b=\"c\">{{ c }}</div>: the scope of `c` is never pushed and the generator indexes past its scope stack")]
+
+
 def run(ctx):
     obs, _model, _its = check_iterators(ctx)
     obs += check_mirror(ctx)
     obs += check_innermost(ctx)
     obs += dedup_key_rule(ctx)
+    obs += slot_key_rule(ctx)
     n_children = sum(1 for o in obs if o["key"].startswith("C05.children/"))
     if n_children < 88:
         obs.append(ctx.ob("C05.floor/children", False, "parse/expr.rs", "only %d variant x iterator obligations (floor 88 = 44 variants x 2 iterators)" % n_children))
